@@ -1,0 +1,75 @@
+//go:build verif
+
+package fasta
+
+// Machine-checked contracts for /verif/govc (contract-based deductive
+// verification). Comments only; this file compiles to nothing and is only
+// read with the build tag "verif".
+
+// The byte stream behind r.r (assumed contract of bufio.Reader, see
+// /verif/govc/extern.go): content in[0..end), position pos; at pos == end the
+// next ReadByte returns io.EOF, or - if fault - a non-EOF error err (once, or
+// forever). "active" = a fault will be reported by the next ReadByte at end.
+
+//@ func reader.read
+//@   props C07 C11 C18
+//@   let S := r.r
+//@   let p0 := old(r.r.pos)
+//@   let active0 := S.fault && (!old(r.r.fired) || S.forever)
+//@   ensures result.1 == nil <==> result.0 != nil
+//@   ensures p0 == S.end && !active0 ==> result.1 == 1
+//@   ensures result.1 == 1 ==> p0 == S.end
+//@   ensures result.1 != nil && result.1 != 1 ==> result.1 == S.err && S.fault && S.pos == S.end
+//@   ensures S.pos == S.end && active0 && p0 < S.end ==> result.1 == S.err
+//@   ensures p0 == S.end && active0 ==> result.1 == S.err
+//@   ensures result.1 == nil ==> S.pos > p0
+//@   ensures S.pos >= p0 && S.pos <= S.end
+//@   ensures S.fired == (old(r.r.fired) || (result.1 != nil && result.1 != 1))
+//@   loop 1
+//@     let q := r.r.pos
+//@     invariant r != nil && result != nil
+//@     invariant p0 <= q && q <= S.end
+//@     let pend := err == nil ? 1 : 0
+//@     invariant readAnything <==> q > p0 + pend
+//@     invariant err == nil ==> q > p0 && S.canUnread
+//@     invariant err == nil ==> S.fired == old(r.r.fired)
+//@     invariant err != nil ==> q == S.end && (err == 1 || err == S.err)
+//@     invariant err != nil ==> ((err == S.err) <==> active0) && S.fired == (old(r.r.fired) || active0)
+//@     invariant (state == stateStart) <==> q == p0 + pend
+//@     invariant q >= p0 + pend
+//@     decreases (S.end - q) + (err == nil ? 1 : 0)
+
+//@ func reader.iter
+//@   props C07 C18
+//@   yields Y
+//@   let active0 := r.r.fault && (!old(r.r.fired) || r.r.forever)
+//@   ensures !stopped && active0 ==> len(Y) > 0 && Y[len(Y)-1].1 == r.r.err
+//@   ensures forall t int :: 0 <= t && t < len(Y) && Y[t].1 != nil ==> t == len(Y)-1
+//@   ensures forall t int :: 0 <= t && t < len(Y) ==> (Y[t].1 != nil <==> Y[t].0 == nil)
+//@   ensures forall t int :: 0 <= t && t < len(Y) ==> Y[t].1 != 1
+//@   loop 1
+//@     invariant r != nil
+//@     invariant forall t int :: 0 <= t && t < len(Y) ==> Y[t].1 == nil && Y[t].0 != nil
+//@     invariant r.r.fired == old(r.r.fired) && r.r.pos <= r.r.end
+//@     decreases r.r.end - r.r.pos
+
+//@ func Reader
+//@   props C06 C07 C18
+//@   yields Y
+//@   ensures forall t int :: 0 <= t && t < len(Y) && Y[t].1 != nil ==> t == len(Y)-1
+//@   ensures forall t int :: 0 <= t && t < len(Y) ==> (Y[t].1 != nil <==> Y[t].0 == nil)
+//@   ensures-notrace !stopped ==> len(Y) == len(Z)
+//@   ensures-notrace len(Y) <= len(Z) && forall t int :: 0 <= t && t < len(Y) ==> same(Y[t], Z[t])
+//@   loop 1
+//@     invariant len(Y) == K && forall t int :: 0 <= t && t < K ==> same(Y[t], Z[t])
+
+//@ func File
+//@   props C06 C18
+//@   yields Y
+//@   let ZR := items(Reader, opened(file))
+//@   ensures openFails(file) ==> len(Y) == 1 && Y[0].1 != nil && Y[0].0 == nil
+//@   ensures !openFails(file) && !stopped ==> len(Y) == len(ZR)
+//@   ensures !openFails(file) ==> len(Y) <= len(ZR) && forall t int :: 0 <= t && t < len(Y) ==> same(Y[t], ZR[t])
+//@   ensures forall t int :: 0 <= t && t < len(Y) && Y[t].1 != nil ==> t == len(Y)-1
+//@   loop 1
+//@     invariant !openFails(file) && len(Y) == K && forall t int :: 0 <= t && t < K ==> same(Y[t], ZR[t])
